@@ -103,7 +103,8 @@ func refValue(tok []byte) (fval, string) {
 	return fval{kind: 'f', bits: math.Float64bits(f)}, ""
 }
 
-// refLine: (point, "") valid; (nil, "skip"); (nil, reason) invalid.
+// refLine: (point, "") valid (an empty measurement is left to the caller: the parser accepts it and
+// CheckValid rejects the row afterwards); (nil, "skip"); (nil, reason) invalid.
 func refLine(line []byte) (*point, string) {
 	p, reason, _ := refLineQ(line)
 	return p, reason
@@ -174,9 +175,6 @@ func refLineQ(line []byte) (pt *point, reason string, stray bool) {
 			p.tags = append(p.tags, tagKV{k, v})
 		}
 		d = d3
-	}
-	if len(p.name) == 0 {
-		return nil, "no_measurement", stray
 	}
 	if len(p.name) > 250 {
 		return nil, "too_long", stray
